@@ -65,6 +65,15 @@ def _make_box(spec):
     R = ref.rot_matrix(dim, spec['rot'])
     c = np.array(spec['center'], dtype=float)
     lim = np.array(spec['limits'], dtype=float)
+    if spec.get('shared'):
+        # a caller that builds several regions from the same input arrays: the box under judgement is built first, then
+        # `shared` further boxes are built from the very same rotation / limits objects (other centres); the first box
+        # must still be the box of its own specification
+        Rin, lin = R.copy(), lim.copy()
+        bb = NDimBoundingBox(Rin, c.copy(), lin)
+        for k in range(int(spec['shared'])):
+            NDimBoundingBox(Rin, c + 1.0 + k, lin)
+        return bb, R, c
     return NDimBoundingBox(R.copy(), c.copy(), lim.copy()), R, c
 
 
@@ -179,6 +188,10 @@ def _bbox_cases(q, base):
     def add(rot, center, limits, fracs):
         cases.append({'kind': 'bbox', 'rot': rot, 'center': center, 'limits': limits, 'seeds': seeds, 'n2s': n2s,
                       'fracs': fracs})
+        # the same box when the caller's arrays are reused for further boxes (every 3rd specification, all in dim 1)
+        if len(center) == 1 or len(cases) % 3 == 0:
+            cases.append({'kind': 'bbox', 'rot': rot, 'center': center, 'limits': limits, 'seeds': seeds[:1], 'n2s': n2s,
+                          'fracs': fracs, 'shared': 1 + len(cases) % 2})
 
     def cover(rots, cl, stride, fracs):
         """Covering design: rotation i meets every stride-th (centre, limits) pair starting at i mod stride, so every
@@ -1154,7 +1167,8 @@ def run(ctx):
         'bbox: one case per (dim<=3, orthonormal rotation descriptor, centre, limits tuple); 1-D and (thorough) 2-D and '
         '3-D-elementary are full products, the rest a covering design (every rotation x every k-th (centre, limits) pair, '
         'offset by rotation index); inside each case all seeds x n2 sample points and all harness-built test points are '
-        'judged; distinct = distinct points. linesearch/build: one case per (K, eta, rep_lim, start, direction | x_min, '
+        'judged; every third specification (all 1-D ones) is also judged after 1-2 further boxes were built from the same '
+        'input arrays; distinct = distinct points. linesearch/build: one case per (K, eta, rep_lim, start, direction | x_min, '
         'Hessian), the complete tree of answer functions (below/above/at-threshold per probed offset, memoised) explored '
         'by stateless DFS; distinct = distinct (result, probe log) outcomes. posterior: every selection of 1-3 '
         '(region, objective) pairs x prior x cut-off x surrogate_used x {pdf grid, sample, worker}; pipeline: every '
